@@ -46,6 +46,17 @@ func getAllFramesFromDataFrame(
 	firstDataFrame *ipldbindcode.DataFrame,
 	dataFrameGetter func(ctx context.Context, wantedCid cid.Cid) (*ipldbindcode.DataFrame, error),
 ) ([]*ipldbindcode.DataFrame, error) {
+	return getAllFramesFromDataFrameOnce(firstDataFrame, dataFrameGetter, make(map[cid.Cid]struct{}))
+}
+
+// getAllFramesFromDataFrameOnce follows the next links, each CID at most once: a CAR section can
+// claim any CID for any bytes, so a frame can list itself (or a frame that leads back to it)
+// among its next frames, and following such links recursed until the stack overflowed.
+func getAllFramesFromDataFrameOnce(
+	firstDataFrame *ipldbindcode.DataFrame,
+	dataFrameGetter func(ctx context.Context, wantedCid cid.Cid) (*ipldbindcode.DataFrame, error),
+	visited map[cid.Cid]struct{},
+) ([]*ipldbindcode.DataFrame, error) {
 	frames := []*ipldbindcode.DataFrame{firstDataFrame}
 	// get the next data frames
 	next, ok := firstDataFrame.GetNext()
@@ -53,11 +64,15 @@ func getAllFramesFromDataFrame(
 		return frames, nil
 	}
 	for _, cid := range next {
+		if _, again := visited[cid.(cidlink.Link).Cid]; again {
+			return nil, fmt.Errorf("data frame %s is linked more than once", cid.(cidlink.Link).Cid)
+		}
+		visited[cid.(cidlink.Link).Cid] = struct{}{}
 		nextDataFrame, err := dataFrameGetter(context.Background(), cid.(cidlink.Link).Cid)
 		if err != nil {
 			return nil, err
 		}
-		nextFrames, err := getAllFramesFromDataFrame(nextDataFrame, dataFrameGetter)
+		nextFrames, err := getAllFramesFromDataFrameOnce(nextDataFrame, dataFrameGetter, visited)
 		if err != nil {
 			return nil, err
 		}
